@@ -30,7 +30,7 @@ Tol(E) == Dec(1, BigMul(E.ds, <<1, 2>>), E.e - 17)
 Near(o, E) == IF DecIsZero(E) THEN DecIsZero(o) ELSE DecSign(o) = DecSign(E) /\ AbsWithin(o, E, Tol(E))
 OpVerdict(s) ==
     LET o == s.out IN
-    IF ~Has(s, "xe") THEN "inc:operand with a long binary expansion"
+    IF ~Has(s, "xe") /\ s.op # "&" THEN "inc:operand with a long binary expansion"
     ELSE LET \* + - * / : forty leading digits of each operand carry more than the result can show
              X == IF s.op = "%" THEN s.xe ELSE Lead(s.xe, 40)
              Y == IF s.op = "%" THEN s.ye ELSE Lead(s.ye, 40)
@@ -69,6 +69,11 @@ OpVerdict(s) ==
                 ELSE LET want == CASE s.op = "<" -> DecLt(s.xe, s.ye) [] s.op = "<=" -> ~DecLt(s.ye, s.xe) [] s.op = ">" -> DecLt(s.ye, s.xe)
                                    [] s.op = ">=" -> ~DecLt(s.xe, s.ye) [] s.op = "=" -> DecSame(s.xe, s.ye) [] OTHER -> ~DecSame(s.xe, s.ye)
                      IN  IF o.b = want THEN "ok" ELSE "no;num-op-wrong-comparison"
+           \* O6: & concatenates the string forms of its operands (the shortest decimal forms, N3)
+           [] s.op = "&" ->
+                IF o.o # "val" \/ ~Has(o, "s") THEN "no;num-op-concatenation-failed"
+                ELSE LET T(x) == IF DecNorm(x).sg = 0 THEN {<<48>>, <<45, 48>>} ELSE {DecText(x)} IN
+                     IF \E a \in T(s.x), b \in T(s.y) : o.s = a \o b THEN "ok" ELSE "no;num-op-wrong-string-form"
            [] OTHER -> "inc:operator outside TraceNum"
 
 StepVerdict(s) ==
